@@ -123,6 +123,21 @@ PROPS = {
         "trusted_base": ["relay model tied to copy.rs by correspondence (scripted: exact; end to end: observable outcome)"],
         "assumptions": ["RST timing and TLS close_notify are observed only on plain TCP loopback"],
     },
+    "C16": {
+        "props_module": "Redproxy.Props.C16",
+        "mode": "c16",
+        "session_start": "N ",
+        "rule": "worlds with history size {0,1,3,100} (+{2,7} thorough), the real registry, GC thread (real 1 s ticks) and JSON access log; bursts of 2-6 "
+                "(2-11) connections through real http / socks listeners on loopback: established with payload (with and without early data), denied, "
+                "upstream refused, garbage instead of a handshake, hang-up mid-handshake, one connection held open across a GC tick; after each "
+                "burst the live table, the history and the log file (after a rotate) are compared with the model, and every log record is checked "
+                "against what the client and upstream actually did (listener, source port, target, connector, state grammar, error text, byte "
+                "counters); a session is non-trivial if it has >= 3 lines; distinct = distinct sessions",
+        "nontrivial_min_lines": 3,
+        "trusted_base": ["registry model Redproxy/Model/Registry.lean tied to context.rs / access_log.rs by correspondence of ids in the live table, history and log"],
+        "assumptions": ["connections of a burst end one after the other (the harness waits for each context to be dropped), so the drop order is the creation order",
+                        "GC timing (1 s) is real time; log flushing is forced with a rotate"],
+    },
     "C08": {
         "props_module": "Redproxy.Props.C08",
         "mode": "c08",
